@@ -288,6 +288,10 @@ reg("np.insert", "np.insert(a, 1, a2[0]) #K", "np.insert(a, [1, 3], a2[:2]) #K")
 reg("np.put", "ip(lambda z: np.put(z, idx, a2[:3]), a) #K#I", "ip(lambda z: np.putmask(z, mask, a2), a) #K#I", "ip(lambda z: np.place(z, mask, a2[:2]), a) #K#I",
     "ip(lambda z: np.copyto(z, a2, where=mask), a) #K#I", "ip(lambda z: z.__setitem__(1, a2[0]), a) #K#I", "ip(lambda z: z.__setitem__(slice(1, 4), a2[:3]), a) #K#I",
     "ip(lambda z: np.fill_diagonal(z, a2[0]), S) #K#I", "ip(lambda z: z.fill(a2[0]), a) #K#I")
+reg("np.histogram", "np.histogram(a, bins=a2sorted, density=True)", "np.histogram(a, bins=a2sorted, weights=c)", "np.histogram(a2, bins=asort, density=True)")
+reg("np.histogram2d", "np.histogram2d(a, c, bins=[a2sorted, csort])", "np.histogram2d(a, c, bins=[a2sorted, csort], density=True)")
+reg("np.histogramdd", "np.histogramdd((a, c), bins=[a2sorted, csort])", "np.histogramdd((a, c), bins=[a2sorted, csort], density=True)")
+reg("np.histogram_bin_edges", "np.histogram_bin_edges(a2, bins=asort) #K")
 reg("np.pad", "np.pad(a, 1, constant_values=q2lo) #K", "np.pad(a, 1, mode='linear_ramp', end_values=q2hi) #K")
 reg("np.full_like", "np.full_like(a, q2lo) #K")
 reg("np.diff", "np.diff(a, prepend=a2[:1]) #K", "np.diff(a, append=a2[:2]) #K", "np.ediff1d(a, to_begin=a2[:1]) #K")
@@ -502,7 +506,75 @@ def _keyword_variant(ex):
     return ast.unparse(ast.fix_missing_locations(ast.Expression(body=call)))
 
 
+def _np_object(func_node):
+    import ast
+
+    parts = []
+    f = func_node
+    while isinstance(f, ast.Attribute):
+        parts.append(f.attr)
+        f = f.value
+    if not (isinstance(f, ast.Name) and f.id == "np"):
+        return None
+    obj = np
+    for nm in reversed(parts):
+        obj = getattr(obj, nm, None)
+        if obj is None:
+            return None
+    return obj
+
+
+def _positional_variant(ex):
+    """the same expression with the keyword arguments of its first NumPy call (also inside a lambda) spelled positionally, skipped
+    parameters filled with their documented defaults: np.copyto(z, s, where=m) -> np.copyto(z, s, 'same_kind', m).  None when
+    no call qualifies (ufuncs, keyword-only parameters, defaults that cannot be written down)."""
+    import ast
+    import inspect
+
+    try:
+        tree = ast.parse(ex, mode="eval")
+    except SyntaxError:
+        return None
+    for node in ast.walk(tree):
+        if not isinstance(node, ast.Call) or not node.keywords or any(k.arg is None for k in node.keywords) or any(isinstance(a_, ast.Starred) for a_ in node.args):
+            continue
+        obj = _np_object(node.func)
+        if obj is None or isinstance(obj, np.ufunc) or not callable(obj):
+            continue
+        try:
+            params = list(inspect.signature(obj).parameters.values())
+        except (TypeError, ValueError):
+            continue
+        kw = {k.arg: k.value for k in node.keywords}
+        names = [p_.name for p_ in params]
+        if not all(k in names for k in kw):
+            continue
+        last = max(names.index(k) for k in kw)
+        if last < len(node.args):
+            continue
+        new_args = list(node.args)
+        ok = True
+        for p_ in params[len(node.args): last + 1]:
+            if p_.kind is not inspect.Parameter.POSITIONAL_OR_KEYWORD:
+                ok = False
+                break
+            if p_.name in kw:
+                new_args.append(kw.pop(p_.name))
+            elif p_.default is None or isinstance(p_.default, (bool, int, float, str)):
+                new_args.append(ast.Constant(value=p_.default))
+            else:
+                ok = False
+                break
+        if not ok or kw:
+            continue
+        node.args = new_args
+        node.keywords = []
+        return ast.unparse(ast.fix_missing_locations(tree))
+    return None
+
+
 _KW_CACHE = {}
+_POS_CACHE = {}
 
 
 def all_templates():
@@ -522,6 +594,14 @@ def all_templates():
         if kv and kv.replace(" ", "") not in seen:
             seen.add(kv.replace(" ", ""))
             out.append((key, kv, fl))
+    # derived: positional spellings of keyword arguments (skipped parameters filled with their defaults)
+    for key, ex, fl in list(out):
+        if ex not in _POS_CACHE:
+            _POS_CACHE[ex] = _positional_variant(ex)
+        pv = _POS_CACHE[ex]
+        if pv and pv.replace(" ", "") not in seen:
+            seen.add(pv.replace(" ", ""))
+            out.append((key, pv, fl))
     # derived: out= spellings of every single-call template whose NumPy signature has an out parameter, and the other
     # axes (with keepdims) of every reduction / join / selection template that names a 2-d or 3-d operand without an axis
     for key, ex, fl in list(out):
